@@ -5,7 +5,8 @@ proof:  lean/DoraModel/Props/C09.lean over
           lean/DoraModel/Wait/Mtx.lean   (lock word / wait queues / blocking flags / join, any number of threads)
 tie A:  the REAL ObjectHashMap (waitlists.rs compiled unmodified in harness crate c09_realwait) runs generated
         operation sequences (insert/get/remove/epoch bump/moving collection through the real visit_roots); per
-        operation: real result + (capacity, entries, tombstones) = Lean model's; real result = abstract map's.
+        operation: real result + (capacity, entries, tombstones, `deleted` counter) = Lean model's; real result =
+        abstract map's.
         Every real call runs in a child process under a 2 s watchdog (`!hang`).
 tie B:  the REAL WaitLists::{block,enqueue,wakeup,wakeup_all} and DoraThread::{block,join,stop,…} (threads.rs,
         unmodified) on the scheduling shim, driven by a Rust transliteration of thread.dora's Mutex/Condition;
@@ -15,6 +16,7 @@ tie B:  the REAL WaitLists::{block,enqueue,wakeup,wakeup_all} and DoraThread::{b
 tie C:  small generated Dora programs (mutex counters, atomics, condition ping-pong, joins) compiled with both
         back ends and run (checks/c09_workloads.py).
 keys:   oracle:hang:hmap-tombstones-fill-table   real probe loop does not return, table has no EMPTY slot
+                                                  (fixed in /repo 527dccb30; the sequence stays in the corpus as regression)
         oracle:hang:hmap / oracle:hmap-wrong-result / oracle:panic:hmap:<…>
         oracle:mutual-exclusion / oracle:deadlock / oracle:join-before-stop / oracle:final-state / oracle:panic:… (h_c09)
         oracle:workload:…                         compiled workload wrong / crashed / timed out ×3
@@ -77,7 +79,7 @@ def classify_hang(real_entries):
     """key for a `!hang`: was the table without any EMPTY slot when the probe started?"""
     prev = [e for e in real_entries if "/" in e]
     if prev:
-        cap, ent, tomb = (int(x) for x in prev[-1].split("/")[1].split(","))
+        cap, ent, tomb = [int(x) for x in prev[-1].split("/")[1].split(",")][:3]
         if cap > 0 and ent + tomb == cap:
             return "oracle:hang:hmap-tombstones-fill-table", (cap, ent, tomb)
         return "oracle:hang:hmap", (cap, ent, tomb)
@@ -277,6 +279,7 @@ def run(ctx):
         raise RuntimeError("driver build failed:\n" + dlog[-3000:])
     st = dict(evaluations=0, disagreements=0, oracle_failures=0, nontrivial=0, hmap_ops=0, hist={}, samples=[], hang_reported={})
     summary, mstats, accepted, wl = {}, {}, 0, None
+    wl_status = "NOT RUN: replay" if ctx.replay else "NOT RUN: harness did not build"
     # (c) thread.dora is modelled by hand: any change of its Mutex / Condition part must be looked at
     fp_now = thread_dora_fingerprint()
     fp_ref = open(FINGERPRINT).read().split()[0] if os.path.exists(FINGERPRINT) else "<none>"
@@ -314,25 +317,35 @@ def run(ctx):
             lap("protocol: %d schedules, %d distinct traces accepted" % (summary.get("schedules", 0), accepted))
         finally:
             shutil.rmtree(tmp, ignore_errors=True)
-        # C. compiled workloads, in what is left of the time budget
+        # C. compiled workloads.  The shared tool chain is built (if the tree state is new) BEFORE the leg's clock
+        # starts, so a rebuild cannot eat the leg's budget; the leg always gets at least 60 s, and a run that
+        # executed no workload says so in the evidence (`workload_leg`).
         try:
             from . import c09_workloads as W
-            budget = (290 if ctx.tier == "quick" else 1800) - (time.time() - t_start) - 60
-            if budget > 40:
-                wl = W.run_workloads(ctx, ctx.tier, time.time() + budget)
-                for f in wl.get("failures", []):
-                    st["oracle_failures"] += 0 if f.get("no_input") else 1
-                    ro = dict(kind="oracle")
-                    ro.update(f.get("replay") or {})
-                    ctx.finding(f["key"], ro, f["text"], no_input=bool(f.get("no_input")))
-                st["evaluations"] += wl.get("runs", 0)
-                lap("workloads: %d programs, %d runs" % (wl.get("programs", 0), wl.get("runs", 0)))
-            else:
-                ctx.notes.append("compiled workloads skipped: time budget used up by the other legs")
+            t_tc = time.time()
+            W.toolchain()
+            tc_s = time.time() - t_tc
+            lap("tool chain ready (%.0f s%s)" % (tc_s, ", rebuilt for this tree state" if tc_s > 30 else ""))
+            core = time.time() - t_start - tc_s
+            budget = max(60.0, (290 if ctx.tier == "quick" else 1800) - core - 60)
+            wl = W.run_workloads(ctx, ctx.tier, time.time() + budget)
+            for f in wl.get("failures", []):
+                st["oracle_failures"] += 0 if f.get("no_input") else 1
+                ro = dict(kind="oracle")
+                ro.update(f.get("replay") or {})
+                ctx.finding(f["key"], ro, f["text"], no_input=bool(f.get("no_input")))
+            st["evaluations"] += wl.get("runs", 0)
+            lap("workloads: %d programs, %d runs" % (wl.get("programs", 0), wl.get("runs", 0)))
+            wl_status = ("ran %d runs of %d programs (%d skipped at the deadline), tool chain %.0f s"
+                         % (wl.get("runs", 0), wl.get("programs", 0), wl.get("skipped", 0), tc_s))
+            if wl.get("runs", 0) == 0:
+                wl_status = "NOT RUN: 0 workload runs within %.0f s (machine too slow / compiles timed out) - no verdict from leg C" % budget
+                C.log("C09: compiled workloads did not run (0 runs); legs A and B carry the verdict")
         except ImportError:
-            ctx.notes.append("compiled workloads not available (checks/c09_workloads.py missing)")
+            wl_status = "NOT RUN: checks/c09_workloads.py missing"
         except Exception as ex:      # the workload leg must not hide the verdict of the other legs
-            ctx.notes.append("compiled workloads: machinery error %r" % (ex,))
+            wl_status = "NOT RUN: machinery error %r" % (ex,)
+            C.log("C09: compiled workloads: " + wl_status)
     if not po["build_ok"] or po["failed"]:
         found = st["oracle_failures"] > 0
         ctx.finding("proof:C09", dict(kind="proof", failed=po["failed"], log=po.get("build_log_tail", "")),
@@ -354,11 +367,10 @@ def run(ctx):
                    "the linked list through (blocking, next) and the (head, tail) table entry are abstracted to lists; the "
                    "acceptor checks that the real code touches the model's tail / head"],
                theorems=po["theorems"],
-               not_proved=["no_lost_wakeup for the mutex (invariant J), no_lost_signal (S), queue/flag consistency (Q), "
-                           "asserts never fail: evaluated by drv_c09 on every model state reached while accepting real traces "
-                           "(DoraModel/Wait/MtxCheck.lean), not proved inductively; W (condition) is proved",
-                           "hmap: Inv preservation is FALSE for insert (theorem hmap_inv_not_preserved); hmap_refines_partial "
-                           "needs live + tombstones < capacity"],
+               not_proved=["no_lost_wakeup for the mutex (invariant J), queue/flag consistency (Q), asserts never fail: "
+                           "evaluated by drv_c09 on every model state reached while accepting real traces "
+                           "(DoraModel/Wait/MtxCheck.lean), not proved inductively; W (condition) and S (signal) are proved",
+                           "hmap: remove on the never-used capacity-0 table panics (model and code agree; unreachable through WaitLists)"],
                evaluations=st["evaluations"],
                distinct_nontrivial=st["nontrivial"] + summary.get("nontrivial", 0),
                rule="evaluation = one hash-map operation sequence (real vs Lean model vs abstract map, per operation) or one "
@@ -374,6 +386,7 @@ def run(ctx):
                            "executable invariants J,S,W,Q,E,WL were evaluated on each of these states",
                dfs=dfs, exhaustive=bool(dfs) and all(d.get("exhaustive") for d in dfs),
                exhaustive_note="bounded exhaustiveness (per scenario, within its preemption bound) only",
+               workload_leg=wl_status,
                workloads=({k: v for k, v in wl.items() if k not in ("failures", "samples")} if wl else None),
                histogram=hist,
                samples=(st["samples"] + (summary.get("samples") or [])[:2] + ((wl or {}).get("samples") or [])[:1])
